@@ -145,6 +145,14 @@ def check_C02(chk):
            ["Total", "AcceptsRFC", "RejectsNonTag", "OnlyEndAccepts", "RunIsPrefix", "Gen"], case_file=tokcases,
            coverage_actions=["Feed"])
     chk.add_mc(r, "MC_Total MaxLen=%d" % (4 if q else 5))
+    # long random walks over the same alphabet (TLC simulation mode): sequences of up to 14 tokens
+    simcases = os.path.join(wd, "simcases.ndjson")
+    rs = mc("C02", "sim_total", "MC_Total.tla", dict(TOTAL_CONST, MaxLen=14),
+            ["Total", "AcceptsRFC", "RejectsNonTag", "OnlyEndAccepts", "Gen"], case_file=simcases, workers=1,
+            simulate="num=%d" % (4000 if q else 40000), depth=16, timeout=1200)
+    chk.models.append({"model": "MC_Total simulation (random walks, MaxLen=14)", "behaviours": rs["cases"]})
+    with open(tokcases, "a") as f:
+        f.write(open(simcases).read())
     # well-formed corpus for the mutations
     wirecases = os.path.join(wd, "wirecases.ndjson")
     r2 = mc("C02", "mc_wire", "MC_Wire.tla", dict(WIRE_CONST, MaxTok=5 if q else 6), ["ParserReadsRFC", "Gen"],
@@ -608,8 +616,8 @@ def check_C09(chk):
 def check_C17(chk):
     q = chk.tier == "quick"
     chk.rule = ("cases = status class (9) x printer-state (7 forms) x printer-state-reasons (absent, single keyword, sets of "
-                "1..2 (3 thorough) keywords over blocking / harmless / none / unlisted vocabularies at every position, "
-                "non-keyword syntax) x 5 group layouts, enumerated by TLC; each built through the API and through the real "
+                "1..3 keywords over blocking / harmless / none / unlisted vocabularies at every position, "
+                "non-keyword syntax) x 6 group layouts, enumerated by TLC; each built through the API and through the real "
                 "parser with the 10 blocking keywords rotated; plus the status gate over all 65536 codes; distinct = "
                 "responses evaluated; judged by Trace_Ready against IppReady.Allowed")
     chk.assumptions = ["0x0003-0x00ff may be either, consistent with is_success()", "suffix forms such as media-jam-error are "
@@ -617,8 +625,8 @@ def check_C17(chk):
     build_harness()
     wd = workdir("C17")
     cases = os.path.join(wd, "cases.ndjson")
-    r = mc("C17", "mc_ready", "MC_Ready.tla", dict(MaxReasons=2 if q else 3), ["OperationalAllowed", "Gen"], case_file=cases)
-    chk.add_mc(r, "MC_Ready MaxReasons=%d" % (2 if q else 3))
+    r = mc("C17", "mc_ready", "MC_Ready.tla", dict(MaxReasons=3), ["OperationalAllowed", "Gen"], case_file=cases)
+    chk.add_mc(r, "MC_Ready MaxReasons=3")
     out = os.path.join(wd, "run")
     harness("vh", ["ready", "--out", out, "--seed", chk.seed, "--cases", cases])
     run_sample(chk, out)
@@ -713,9 +721,9 @@ def check_C12(chk):
     cases = os.path.join(wd, "cases.ndjson")
     r = mc("C12", "mc_tls", "MC_Tls.tla", dict(DerRoots="parsed"),
            ["NoDataUnlessAuthenticated", "SuppliedRootAccepted", "Gen"], properties=["Decides"], case_file=cases)
-    chk.add_mc(r, "MC_Tls (240 configurations)")
-    if r["cases"] != 240:
-        raise ToolError("expected 240 TLS configurations, got %d" % r["cases"])
+    chk.add_mc(r, "MC_Tls (240 configurations + 60 with the server's own certificate supplied as root)")
+    if r["cases"] != 300:
+        raise ToolError("expected 300 TLS configurations (240 + 60 own-leaf extension), got %d" % r["cases"])
     out = os.path.join(wd, "run")
     os.makedirs(out, exist_ok=True)
     fix = os.path.join(ROOT, "fixtures", "tls")
@@ -757,7 +765,7 @@ def util_describe(ev):
 def check_C18(chk):
     q = chk.tier == "quick"
     chk.rule = ("sessions = command lines {-n on/off} x {file, stdin} x {0 B, small, 150-400 KiB (0.3-2 MiB thorough)} x job name x user name x "
-                "option lists of 0..1 (0..2 thorough) over 7 text classes (true, false, i32 incl. +5/007/extremes, "
+                "option lists of 0..2 over 7 text classes (commas, spaces, quotes, signs, leading zeros, full-width digits ...) (true, false, i32 incl. +5/007/extremes, "
                 "overflowing / non-decimal, keyword, value containing '=', no '=') x extra header, crossed with printer "
                 "scripts {ready, stopped, blocking reason alone / in a set, IPP error, HTTP error} x Print-Job reply {ok, "
                 "IPP error, HTTP error}; enumerated by TLC; quick runs a seeded stride of ~1500 sessions, thorough ~9000; one "
@@ -768,9 +776,9 @@ def check_C18(chk):
     binp = build_ipputil()
     wd = workdir("C18")
     cases = os.path.join(wd, "cases.ndjson")
-    r = mc("C18", "mc_util", "MC_Util.tla", dict(NoCheckFlag="normal", OptClasses=OPT_CLASSES, MaxOpts=1 if q else 2),
+    r = mc("C18", "mc_util", "MC_Util.tla", dict(NoCheckFlag="normal", OptClasses=OPT_CLASSES, MaxOpts=2),
            UTIL_INV + ["Gen"], properties=["Terminates"], case_file=cases, timeout=3000)
-    chk.add_mc(r, "MC_Util MaxOpts=%d" % (1 if q else 2))
+    chk.add_mc(r, "MC_Util MaxOpts=2")
     # extension beyond the listed property: the single-exchange commands of ipputil
     cmdcases = os.path.join(wd, "cmdcases.ndjson")
     r = mc("C18", "mc_utilcmd", "MC_UtilCmd.tla", {}, ["OneRequest", "ExitZeroIffOk", "Gen"], properties=["Terminates"],
